@@ -189,3 +189,27 @@ def check_allow_args_defaults(vals: Tuple[int, int, int], npos: int) -> Tuple[in
     args = vals[:npos]
     kw = {NAMES[i]: vals[i] for i in range(npos, 3)}
     return allow_args(_f_kw_defaults)(*args, **kw)
+
+
+# ---- one wrapper OBJECT called repeatedly: the result of a call depends on that call's arguments only ----
+def check_only_kwargs_two_calls(vals: Tuple[int, int, int], vals2: Tuple[int, int, int], perm: Tuple[int, int, int], perm2: Tuple[int, int, int]) -> Tuple[Tuple[int, int, int], Tuple[int, int, int]]:
+    """
+    the same wrapper object is called twice, with other values and another keyword order
+    pre: sorted(perm) == [0, 1, 2] and sorted(perm2) == [0, 1, 2]
+    post: _ == (vals, vals2)
+    """
+    w = allow_only_kwargs(_f_plain)
+    first = w(**{NAMES[i]: vals[i] for i in perm})
+    second = w(**{NAMES[i]: vals2[i] for i in perm2})
+    return (first, second)
+
+
+def check_only_kwargs_two_calls_mixed(vals: Tuple[int, int, int], vals2: Tuple[int, int, int], perm: Tuple[int, int, int], perm2: Tuple[int, int, int]) -> Tuple[Tuple[int, int, int], Tuple[int, int, int]]:
+    """
+    pre: sorted(perm) == [0, 1, 2] and sorted(perm2) == [0, 1, 2]
+    post: _ == (vals, vals2)
+    """
+    w = allow_only_kwargs(_f_mixed)
+    first = w(**{NAMES[i]: vals[i] for i in perm})
+    second = w(**{NAMES[i]: vals2[i] for i in perm2})
+    return (first, second)
